@@ -81,6 +81,7 @@ pub fn generate(tier: &str, rng: &mut Prng) -> Vec<Case> {
     // the same clause on the path a signature takes (from_bytes, then verify): one padding bit set in a valid signature
     let mut extra: Vec<Case> = vec![];
     crate::c02::padding_bit_ops(tier, rng, &mut extra);
+    crate::c02::unary_run_ops(&mut extra);
     for c in extra {
         push(c.op);
     }
